@@ -69,6 +69,7 @@ def case_strategy(draw):
         "handler": draw(handler_cfg(hm)),
         "relabel_pred": draw(st.lists(st.sampled_from([1, 2, 3, 256, 512]), min_size=n, max_size=n)),
         "relabel_ref": draw(st.lists(st.sampled_from([1, 2, 3, 256, 512]), min_size=n, max_size=n)),
+        "primes": draw(st.lists(st.sampled_from(sorted(lib.PRIMES)), min_size=0, max_size=2)) if draw(st.integers(0, 2)) == 0 else [],
     }
 
 
@@ -92,6 +93,7 @@ def _run(pred, ref, case, mkey):
 
 
 def check(case, stats):
+    lib.run_primes(case.get("primes"))
     pred = np.array(case["pred"]).astype(case["dtype"])
     ref = np.array(case["ref"]).astype(case["dtype"])
     shape = ref.shape
